@@ -103,6 +103,8 @@ type traceScenario struct {
 	family   string
 	errFile  string
 	errLine  int
+	errMax   int // 0: the error is on errLine exactly; otherwise on a line errLine..errMax (the fault spans lines)
+	fault    string
 	chain    []tracePair      // expected trace after the error's own pair, innermost first
 	earlier  map[string][]int // includer file -> lines of all INCLUDE directives in it (to recognise D13)
 	msgPart  string
@@ -172,24 +174,65 @@ func genTraceScenarios(c *fw.Ctx, n int, emit func(*traceScenario)) {
 		}
 		files["root.jst"].add("JSIGHT 0.3")
 		family := r.Intn(5)
-		// fault kinds
-		kind := r.Intn(4)
-		var faultText string
-		switch kind {
-		case 0: // duplicate type (the first definition lives in the root, before the include)
-			files["root.jst"].add("TYPE @dup any")
-			faultText, sc.msgPart = "TYPE @dup any", "has already been declared"
-		case 1: // undefined type in a body
-			faultText, sc.msgPart = "TYPE @u\n  {\"a\": @nowhere}", "not found"
-		case 2: // context error: found while scanning
-			faultText, sc.msgPart, sc.scanTime = "Body any", "incorrect context", true
-		case 3: // second Title
-			files["root.jst"].add("INFO\n  Title \"a\"")
-			faultText, sc.msgPart, sc.scanTime = "Title \"b\"", "", false
-			// Title at root level of an included file continues the INFO context only if nothing closed it;
-			// keep it simple: use duplicate SERVER instead
-			files["root.jst"].add("SERVER @s\n  BaseUrl \"http://a\"")
-			faultText, sc.msgPart = "SERVER @s\n  BaseUrl \"http://b\"", "has already been declared"
+		// fault kinds: text, part of the message, offset of the line the error is on (-1: somewhere on the lines of the text, or -
+		// for a text that the end of the file cuts short - the position after the last byte), what the root declares before
+		type faultT struct {
+			text, msg string
+			off       int
+			atEnd     bool // the fault is that the file ends here: it is the last thing of its file
+			pre       string
+			dup       bool
+		}
+		faults := []faultT{
+			{text: "TYPE @dup any", msg: "has already been declared", pre: "TYPE @dup any", dup: true},
+			{text: "TYPE @u\n  {\"a\": @nowhere}", msg: "not found", off: 1},
+			{text: "Body any", msg: "incorrect context"},
+			{text: "SERVER @s\n  BaseUrl \"http://b\"", msg: "has already been declared", pre: "SERVER @s\n  BaseUrl \"http://a\"", dup: true},
+			{text: "FOO bar"},
+			{text: "GET /dupi\n  200 any", pre: "GET /dupi\n  200 any", off: -1},
+			{text: "TAG @tg", pre: "TAG @tg", off: -1},
+			{text: "ENUM @en\n  [1, 1]", off: -1},
+			{text: "TYPE @bad\n  {\"a\": 1 // {min: 5}\n  }", off: -1},
+			{text: "GET /p/{id}\n  Path\n    {\"zz\": 1}\n  200 any", off: -1},
+			{text: "GET /tt\n  Tags @nowhere\n  200 any", off: -1},
+			{text: "INCLUDE nowhere.jst"},
+			{text: "INCLUDE ../x.jst"},
+			{text: "  200 any", msg: "incorrect context"},
+			{text: "MACRO @mm\n(\n  200 any\n)\nMACRO @mm\n(\n  200 any\n)", off: -1},
+			{text: "ENUM @en\n  [1,", off: -1, atEnd: true},
+			{text: "ENUM @en\n  [1]\n/* abc", off: -1, atEnd: true},
+			{text: "TYPE @x\n  {\"a\": 1", off: -1, atEnd: true},
+			{text: "GET /a\n  Description\n  (\n    text", off: -1, atEnd: true},
+			{text: "GET /a \"unclosed", off: -1, atEnd: true},
+			{text: "MACRO @m\n(\n  200 any", off: -1, atEnd: true},
+			{text: "GET /a /* never closed\n  200 any", off: -1, atEnd: true},
+			{text: "TYPE @x\n  {\"a\": 1 /* never\n  }", off: -1, atEnd: true},
+			{text: "URL /u\n(", off: -1, atEnd: true},
+			{text: "TYPE @x\n  {\"a\": [1, 2,\n", off: -1, atEnd: true},
+			{text: "GET /a\n  200 regex\n    /ab", off: -1, atEnd: true},
+		}
+		kind := r.Intn(len(faults))
+		if i%3 == 0 {
+			kind = r.Intn(4) // the four oldest kinds keep a third of the scenarios
+		}
+		ft := faults[kind]
+		if ft.pre != "" {
+			files["root.jst"].add(ft.pre)
+		}
+		faultText := ft.text
+		sc.msgPart, sc.fault = ft.msg, strings.SplitN(ft.text, "\n", 2)[0]
+		placeFault := func(f *fileBuilder) {
+			at := f.add(faultText)
+			sc.errLine = at
+			if ft.off > 0 {
+				sc.errLine = at + ft.off
+			}
+			if ft.off < 0 {
+				sc.errMax = at + strings.Count(faultText, "\n")
+				if ft.atEnd {
+					sc.errMax++
+				}
+			}
 		}
 		relTo := func(from, to string) string {
 			dir := ""
@@ -204,7 +247,7 @@ func genTraceScenarios(c *fw.Ctx, n int, emit func(*traceScenario)) {
 		faultAfterInclude := false
 		if depth > 1 && r.Intn(2) == 0 {
 			faultLevel = 1 + r.Intn(depth-1)
-			faultAfterInclude = r.Intn(3) != 0
+			faultAfterInclude = r.Intn(3) != 0 || ft.atEnd
 		}
 		harmless := 0
 		for d := 0; d < depth; d++ {
@@ -227,10 +270,7 @@ func genTraceScenarios(c *fw.Ctx, n int, emit func(*traceScenario)) {
 			}
 			if d == faultLevel && !faultAfterInclude {
 				sc.errFile = names[d]
-				sc.errLine = f.add(faultText)
-				if kind == 1 {
-					sc.errLine++
-				}
+				placeFault(f)
 				pad(f, false)
 			}
 			at := f.add("INCLUDE " + relTo(names[d], names[d+1]))
@@ -241,13 +281,12 @@ func genTraceScenarios(c *fw.Ctx, n int, emit func(*traceScenario)) {
 			pad(f, false)
 			if d == faultLevel && faultAfterInclude {
 				sc.errFile = names[d]
-				sc.errLine = f.add(faultText)
-				if kind == 1 {
-					sc.errLine++
+				placeFault(f)
+				if !ft.atEnd {
+					pad(f, false)
 				}
-				pad(f, false)
 			}
-			if family == 4 && r.Intn(2) == 0 {
+			if family == 4 && r.Intn(2) == 0 && !(ft.atEnd && d == faultLevel) {
 				harmless++
 				hn := fmt.Sprintf("h%d.jst", harmless)
 				dir := ""
@@ -263,16 +302,15 @@ func genTraceScenarios(c *fw.Ctx, n int, emit func(*traceScenario)) {
 		pad(leaf, false)
 		if faultLevel == depth {
 			sc.errFile = names[depth]
-			sc.errLine = leaf.add(faultText)
-			if kind == 1 {
-				sc.errLine++ // the reference sits on the second line of the body
-			}
+			placeFault(leaf)
 		} else {
 			uniq++
 			leaf.add(fmt.Sprintf("TYPE @leaf%d any", uniq)) // the deepest file holds a harmless directive
 		}
-		pad(leaf, false)
-		if family == 2 && kind != 0 && kind != 3 {
+		if !(ft.atEnd && faultLevel == depth) {
+			pad(leaf, false)
+		}
+		if family == 2 && !ft.dup {
 			family = 0
 		}
 		sc.family = []string{"chain", "earlier-sibling-include", "chain", "chain", "later-sibling-include"}[family]
@@ -463,8 +501,9 @@ func C07(c *fw.Ctx) {
 			c.Violate("trace:unexpected-error", fmt.Sprintf("scenario expected an error containing %q, got %q", sc.msgPart, e.Msg), replayOf(j, res))
 			return
 		}
-		if relName(res, e.File) != sc.errFile || e.Line != sc.errLine {
-			c.Violate("trace:error-position", fmt.Sprintf("fault is at %s:%d, error says %s:%d", sc.errFile, sc.errLine, relName(res, e.File), e.Line), replayOf(j, res))
+		c.Inc("trace_fault_kinds", sc.fault, 1)
+		if relName(res, e.File) != sc.errFile || (sc.errMax == 0 && e.Line != sc.errLine) || (sc.errMax != 0 && (e.Line < sc.errLine || e.Line > sc.errMax)) {
+			c.Violate("trace:error-position", fmt.Sprintf("fault %q is at %s:%d..%d, error says %s:%d (%s)", sc.fault, sc.errFile, sc.errLine, sc.errMax, relName(res, e.File), e.Line, e.Msg), replayOf(j, res))
 			return
 		}
 		got := pairs
